@@ -2,9 +2,9 @@
     positive/Z/Q - no OCaml int or float). *)
 From Coq Require Import Extraction ExtrOcamlBasic.
 From Coq Require Import List ZArith QArith Qcanon.
-From Inovesa Require Import Base.FieldKit Model.RF.
+From Inovesa Require Import Base.FieldKit Model.RF Model.RFDriftGen.
 
 Extraction Language OCaml.
 
 Extraction "model_rf.ml"
-  Q2Qc this ruler_list rf_lin_list rf_sin_list drift_list zmoments zorbit_listZ.
+  Q2Qc this ruler_list rf_lin_list rf_sin_list drift_list zmoments zorbit_listZ gen_offs_run.
